@@ -75,6 +75,29 @@ def _spec_case(rng, repo, registry):
     return (m, bad) if (bad or not ev["pre"]) else None
 
 
+def exhaustive4_cases(rng):
+    """every DAG on 4 nodes, with no / one / two bidirected edges, x every pair and conditioning set"""
+    import itertools as itt
+    for vs, d, u in oracles.all_admgs(4):
+        if u:
+            continue
+        for k in (0, 1, 2):
+            uu = [tuple(e) for e in rng.sample(list(itt.combinations(vs, 2)), k)]
+            for a, b in itt.combinations(vs, 2):
+                rest = [v for v in vs if v not in (a, b)]
+                for m in range(len(rest) + 1):
+                    for cond in itt.combinations(rest, m):
+                        yield {"nodes": vs, "directed": d, "undirected": uu, "a": a, "b": b, "conditions": list(cond),
+                               "container": "set", "shuffle": rng.randrange(1 << 30)}
+
+
+def _eval4(c):
+    try:
+        return c, run_case(c), None
+    except Exception as e:
+        return c, None, f"{type(e).__name__}: {e}"
+
+
 def extra(rep, repo, registry, known_open):
     t0 = time.time()
     rng = random.Random(repr((rep.seed, "C04")))
@@ -100,6 +123,21 @@ def extra(rep, repo, registry, known_open):
                             "scope": "random ADMGs with 3..6 nodes, random pair and conditioning set, shuffled insertion order, "
                                      "both argument orders, conditioning set passed as set/list/tuple/frozenset/iterator/generator",
                             "failures": len(fails), "wall_s": round(time.time() - t0, 1)})
+    # (C) exhaustive on 4 nodes
+    import multiprocessing as mp
+    cases4 = list(exhaustive4_cases(rng))
+    concrete.y0mod("y0.dsl")
+    errs4 = []
+    with mp.get_context("fork").Pool(16) as pool:
+        for c, why, err in pool.imap_unordered(_eval4, cases4, chunksize=64):
+            if err:
+                errs4.append(err)
+            elif why:
+                fails.append((c, why))
+    if errs4:
+        rep.errors.append(f"C04 exhaustive part: {len(errs4)} evaluation errors, e.g. {errs4[0]}")
+    rep.extra_parts.append({"name": "are_d_separated-vs-oracle-4-nodes", "kind": "bounded", "evaluations": len(cases4),
+                            "scope": "every DAG on 4 nodes with no / one / two (sampled) bidirected edges x every pair x every conditioning set", "failures": len(fails)})
     if fails:
         c, why = min(fails, key=lambda f: len(f[0]["nodes"]))
         path = pipeline.write_replay("C04", "bounded.are_d_separated-vs-oracle",
